@@ -7,27 +7,52 @@ CORE = "frost_core::"
 RP = CORE + "keys::repairable::"
 
 
+def part1_result(P, f):
+    """(H, hv, payloads): the function whose body builds repair_share_part1's Ok value — f itself, or the private helper whose
+    Result f returns as it is (whatever it is called and whatever its parameters are) seen with the call's arguments — and the
+    Ok payload term(s) in f's vocabulary"""
+    v = FnView.get(P, f)
+    if any(k == "ok" for (b, k, rv) in ret_writes(f)):
+        return f, v, ok_values(f, v)
+    tails = [(b, rv) for (b, k, rv) in ret_writes(f) if k == "call"]
+    if len(tails) == 1:
+        T = v.cx.call(tails[0][1], v.cx.site(tails[0][0]))
+        H, Y = helper_call(P, f, T)
+        if H is not None and H.j.get("vis") != "Public" and not H.j.get("reachable"):
+            hv = FnView(P, H, {i + 1: a for i, a in enumerate(Y[2])}, (Y[3],))
+            return H, hv, ok_values(H, hv)
+    return f, v, []
+
+
+def drawn_values(t):
+    """generate_coefficients(helpers.len() - 1, rng) in repair_share_part1's vocabulary"""
+    return (is_call(t, name="generate_coefficients") and len(t[2]) == 2 and t[2][0][0] == "bin" and t[2][0][1] == "Sub"
+            and t[2][0][3] == ("const", "usize", 1) and length(arg(1))(t[2][0][2]) and t[2][1] == ("arg", 3))
+
+
+def look_through(P, t):
+    """ok(private helper(..)) -> the helper's Ok payload seen with the call's arguments (a value computed in an extracted helper)"""
+    if t[0] == "ok" and is_call(t[1]):
+        pays = ok_of(P, t[1])
+        if len(pays) == 1 and pays[0] != t:
+            return pays[0]
+    return t
+
+
 def repair_draw_count(ctx):
     P = ctx.prog
     f = ctx.anchor(RP + "repair_share_part1")
     if f:
         v = FnView.get(P, f)
-        # draw count and wiring
-        good = False
-        for (b, k, t) in ret_writes(f):
-            if k == "call":
-                a = v.call_args(b)
-                ci = callee_of(t)
-                if ci.get("name") != "compute_last_random_value":
-                    continue
-                draws = a[2]
-                good = (set_of(P, f, v, arg(1))(a[0]) and a[1] == ("arg", 2)
-                        and a[3] == ("arg", 4) and is_call(draws, name="generate_coefficients")
-                        and draws[2][0] == ("bin", "Sub", draws[2][0][2], ("const", "usize", 1))
-                        and length(arg(1))(draws[2][0][2]) and draws[2][1] == ("arg", 3))
+        H, hv, pays = part1_result(P, f)
+        ent = out_entries(P, H, hv, pays[0]) if len(pays) == 1 else None
+        good = ent is not None and ent[0] is not None and drawn_values(ent[0]["right"])
+        # exactly one draw call, handed the caller's rng
+        gc = [v.call_args(bb) for (bb, t, ci) in f.calls() if ci and ci.get("name") == "generate_coefficients"]
+        good = good and len(gc) == 1 and drawn_values(("call", "x::generate_coefficients", gc[0], None, None))
         ctx.check(good, "DRAW", f.key, "draws==|helpers|-1",
-                  "repair_share_part1 must draw exactly helpers.len()-1 values from the caller's rng and pass (helper "
-                  "set, own key package, those values, repaired identifier) on", f.loc)
+                  "repair_share_part1 must draw exactly helpers.len()-1 values from the caller's rng and hand exactly those to the "
+                  "first |H|-1 helpers", f.loc)
 
 
 def side_view(P, X):
@@ -75,7 +100,7 @@ def out_entries(P, f, v, t):
         pairs = {"left": lb, "right": rb, "key": subst(le, [(lambda y: y == ITEM, ("field", ITEM, None, "0"))]),
                  "val": subst(re_, [(lambda y: y == ITEM, ("field", ITEM, None, "1"))])}
         for o in t[2]:
-            if o[1] != "insert" or len(o[2]) != 2 or o[3][0] == "inl" or any(o[3][-1] in lp["body"] for lp in f.loops()) or \
+            if o[1] != "insert" or len(o[2]) != 2 or site_bb(o[3], f) is None or any(o[3][-1] in lp["body"] for lp in f.loops()) or \
                     not on_every_success_path(f, o[3][-1]):
                 return None
             singles.append((o[2][0], o[2][1]))
@@ -98,28 +123,22 @@ def run(ctx):
     f = ctx.anchor(RP + "repair_share_part1")
     if f:
         v = FnView.get(P, f)
-        sinks = ok_sinks(f) | call_sinks(f, lambda ci, t: ci and ci.get("name") in ("generate_coefficients",
-                                                                                     "compute_last_random_value"))
+        sinks = ok_sinks(f) | call_sinks(f, lambda ci, t: ci and ci.get("name") == "generate_coefficients")
         w = Width()
         refusal(ctx, f, "SEP", "G37:helpers<min_signers",
                 [("len<min", cmp_fact("lt", w.of(length(arg(1))), w.of(fld(arg(2), "min_signers")), True))],
                 sinks, width=w)
         mech = [("helpers.contains(own)", cmp_fact("contains", arg(1), fld(arg(2), "identifier"), False))]
         from .c05 import lagrange_found_flag
-        clr = P.fns.get(RP + "compute_last_random_value")
-        if lagrange_found_flag(ctx) and clr:
-            # the Lagrange routine refuses an x_i outside the set; part1 always goes through it before Ok
-            vc = FnView.get(P, clr)
-            m = succ_fact(lambda t: is_call(t, name="compute_lagrange_coefficient") and t[2][0] == ("arg", 1)
-                          and fld(arg(2), "identifier")(t[2][2]))
-            if not sep(clr, {e for (e, fa) in vc.facts if m(fa) == "pass"}, ok_sinks(clr)):
-                ok_calls = [t for (b, k, t) in ret_writes(f) if k == "call"]
-                tail = all(callee_of(t) and callee_of(t).get("name") == "compute_last_random_value" for t in ok_calls)
-                if tail and ok_calls:
-                    mech.append(("lagrange-x_i-found", lambda fa: None))
-                    # every non-Err result of part1 is the tail call: the refusal is inherited
-                    ctx.ok("SEP", f.key, "G38:caller-not-in-helpers", {"mechanisms": ["contains", "lagrange-x_i-found"]})
-                    mech = None
+        if lagrange_found_flag(ctx):
+            # the Lagrange routine refuses an x_i outside the set: a result that can only be produced after
+            # compute_lagrange_coefficient(helper set, .., own identifier) succeeded inherits that refusal
+            S = set_of(P, f, v, arg(1))
+            lag = [("lagrange-x_i-found", succ_fact(lambda t: is_call(t, name="compute_lagrange_coefficient") and
+                                                    (S(t[2][0]) or t[2][0] == ("arg", 1)) and fld(arg(2), "identifier")(t[2][2])))]
+            if sep_holds(P, f, mech + lag, ok_sinks(f), require_fail_err=False):
+                ctx.ok("SEP", f.key, "G38:caller-not-in-helpers", {"mechanisms": ["contains", "lagrange-x_i-found"]})
+                mech = None
         if mech is not None:
             refusal(ctx, f, "SEP", "G38:caller-not-in-helpers", mech, sinks)
         refusal(ctx, f, "SEP", "G39:duplicate-helpers",
@@ -128,24 +147,29 @@ def run(ctx):
     repair_draw_count(ctx)
     from .c01 import lagrange_kernel
     lagrange_kernel(ctx)
-    f = ctx.anchor(RP + "compute_last_random_value")
+    f = ctx.anchor(RP + "repair_share_part1")
     if f:
-        v = FnView.get(P, f)
-        oks = ok_values(f, v)
+        v1 = FnView.get(P, f)
+        H, hv, pays = part1_result(P, f)
         good = False
-        ent = out_entries(P, f, v, oks[0]) if len(oks) == 1 else None
+        ent = out_entries(P, H, hv, pays[0]) if len(pays) == 1 else None
+        S = set_of(P, f, v1, arg(1))
         if ent is not None and ent[0] is not None and len(ent[1]) == 1:
             pairs, (key, val) = ent[0], ent[1][0]
             val = unwrap_newtypes(val)
             zeta = lambda t: t[0] == "ok" and is_call(t[1], name="compute_lagrange_coefficient") and \
-                t[1][2][0] == ("arg", 1) and t[1][2][1] == ("agg", "adt", "core::option::Option", "Some", (("0", ("arg", 4)),)) and \
+                S(t[1][2][0]) and t[1][2][1] == ("agg", "adt", "core::option::Option", "Some", (("0", ("arg", 4)),)) and \
                 fld(arg(2), "identifier")(t[1][2][2])
-            lhs = lambda t: is_call(t, name="mul") and ((zeta(t[2][0]) and mentions(t[2][1], fld(arg(2), "signing_share")))
-                                                        or (zeta(t[2][1]) and mentions(t[2][0], fld(arg(2), "signing_share"))))
-            summ = lambda t: sum_over(P, f, v, t, arg(3))
-            good = (key[0] == "some" and is_call(key[1], name="last") and key[1][2][0] == ("arg", 1)
+
+            def lhs(t):
+                t = look_through(P, t)
+                return is_call(t, name="mul") and len(t[2]) == 2 and (
+                    (zeta(t[2][0]) and fld(arg(2), "signing_share")(strip_newtype_fields(t[2][1]))) or
+                    (zeta(t[2][1]) and fld(arg(2), "signing_share")(strip_newtype_fields(t[2][0]))))
+            summ = lambda t: sum_over(P, H, hv, t, drawn_values)
+            good = (key[0] == "some" and is_call(key[1], name="last") and S(key[1][2][0])
                     and is_call(val, name="sub") and lhs(val[2][0]) and summ(val[2][1])
-                    and pairs["left"] == ("arg", 1) and pairs["right"] == ("arg", 3)
+                    and S(pairs["left"]) and drawn_values(pairs["right"])
                     and strip_newtype_fields(pairs["key"]) == ("field", ITEM, None, "0"))
             ctx.check(strip_newtype_fields(unwrap_newtypes(pairs["val"])) == ("field", ITEM, None, "1"), "PROV", f.key, "delta==random-value",
                       "each non-last delta must be exactly the drawn value", f.loc)
@@ -153,7 +177,7 @@ def run(ctx):
                   "the helper's outgoing values must be the drawn values for the first |H|-1 helpers and zeta_i*s_i minus "
                   "their sum for the last helper, zeta_i = Lagrange(helpers, at repaired identifier, own identifier)",
                   f.loc)
-        reductions(ctx, f.key, adaptors={"zip": 1}, min_loops=0)
+        reductions(ctx, H.key if H.key in P.fns else f.key, adaptors={"zip": 1}, min_loops=0)
     f = ctx.anchor(RP + "repair_share_part2")
     if f:
         reductions(ctx, f.key, adaptors={}, min_loops=0)
